@@ -57,7 +57,8 @@ CHECKS['C05'] = dict(
     technique='runtime monitoring: cooperative schedule fuzzer at SQL-statement/file-operation gates (timeout=0 '
               'connections) + call/return history + Wing-Gong linearizability checker against a sequential map; '
               'free-running threads/processes with injected delays (WAL and rollback journals), per-key check; handles '
-              'opened and iterations left half-consumed inside the schedules',
+              'opened and iterations left half-consumed inside the schedules; statement-level gates (sys.monitoring LINE '
+              'events at attribute stores) with bounded-exhaustive change-point plans for threads sharing one Cache object',
     text='~1.6k fuzzed schedules of small programs (2-4 clients, shared and separate Cache objects, inline and '
          'file-backed stamped values, LRU/statistics variant) and ~30 free-running thread/process runs per quick run; '
          'whole histories incl. a final read-out are linearized; only lookups that missed while overlapping a write of '
@@ -68,7 +69,8 @@ CHECKS['C06'] = dict(
     level='exploration', ref='3/C06',
     technique='runtime monitoring: abort-point enumeration of generated block bodies under the lock-step RefCache '
               'monitor with an independent observer (isolation + all-or-nothing), stdlib deque/OrderedDict monitors for '
-              'Deque/Index blocks, schedule fuzzer with blocks as composite operations and snapshot readers',
+              'Deque/Index blocks, schedule fuzzer with blocks as composite operations and snapshot readers; bounded-'
+              'exhaustive statement-level change-point plans (sys.monitoring) for a block beside another thread on one object',
     text='Every raise point j of every generated body (three exception kinds, nested blocks, inner exceptions caught) '
          'is executed; after an abort table dump, Settings, value files and a full read-out must equal the pre-block '
          'snapshot, during the block an independent connection must see the pre-block state; concurrent part: composite '
